@@ -34,6 +34,7 @@ static std::string g_prop, g_stats, g_faildir = ".", g_errfile;
 static double g_time_budget = 1e9, g_case_timeout = 60.0;
 static long g_shrink_budget = 400;
 static unsigned g_tape_len = 0;
+static int g_child_fd = -1;
 
 static double now_s()
 {
@@ -75,19 +76,29 @@ static std::string json_escape(const std::string &s)
 
 static std::string read_tail(const std::string &path, size_t max)
 {
-	std::string out;
+	// the head of the first sanitizer / assertion report if there is one, else the tail of the file
+	std::string all;
 	FILE *f = fopen(path.c_str(), "rb");
 	if(!f)
-		return out;
-	fseek(f, 0, SEEK_END);
-	long sz = ftell(f);
-	long start = sz > (long)max ? sz - (long)max : 0;
-	fseek(f, start, SEEK_SET);
-	out.resize(sz - start);
-	if(fread(&out[0], 1, out.size(), f) != out.size()) {
-	}
+		return all;
+	char buf[8192];
+	size_t n;
+	while((n = fread(buf, 1, sizeof buf, f)) > 0 && all.size() < (1u << 22))
+		all.append(buf, n);
 	fclose(f);
-	return out;
+	static const char *keys[] = {"ERROR: AddressSanitizer", "runtime error:", "Assertion", "RSV hang", "FATAL"};
+	size_t best = std::string::npos;
+	for(const char *k : keys) {
+		size_t p = all.find(k);
+		if(p != std::string::npos && p < best)
+			best = p;
+	}
+	if(best != std::string::npos) {
+		size_t ls = all.rfind('\n', best);
+		ls = ls == std::string::npos ? 0 : ls + 1;
+		return all.substr(ls, max);
+	}
+	return all.size() > max ? all.substr(all.size() - max) : all;
 }
 
 // Runs one case; fills res.  Returns false if the child crashed / timed out (res synthesised).
@@ -140,6 +151,7 @@ static void run_case(const std::vector<uint8_t> &tape, rsv_result &res, bool &cr
 			close(efd);
 		}
 		rsv_result *r = (rsv_result *)calloc(1, sizeof(rsv_result));
+		g_child_fd = pfd[1];
 		rsv_case(tape.data(), tape.size(), r);
 		size_t off = 0;
 		while(off < sizeof *r) {
@@ -193,6 +205,21 @@ static void run_case(const std::vector<uint8_t> &tape, rsv_result &res, bool &cr
 		snprintf(res.msg, sizeof res.msg, "harness child died (status 0x%x%s) before reporting; stderr tail: %s", st,
 		    WIFSIGNALED(st) ? " signal" : "", tail.c_str());
 	}
+}
+
+// lets a harness deliver its result from a state it cannot return from (e.g. a proven hang)
+extern "C" void rsv_emit_and_exit(const struct rsv_result *r)
+{
+	if(g_child_fd >= 0) {
+		size_t off = 0;
+		while(off < sizeof *r) {
+			ssize_t w = write(g_child_fd, (const char *)r + off, sizeof *r - off);
+			if(w <= 0)
+				break;
+			off += w;
+		}
+	}
+	_exit(0);
 }
 
 static void on_alarm(int)
